@@ -182,13 +182,18 @@ package act
 //@ func gen.ReleaseMailboxMessage
 //@   trusted
 //@ func (a *Actor) ProcessRun
-//@   props C03
+//@   props C03 C07
 //@   mode int
 //@   no_safety
+//@   may_panic
 //@   requires [mailbox] mboxDistinct(a.mailbox)
 //@   loop 1 invariant [mailbox1] mboxDistinct(a.mailbox)
 //@   loop 2 invariant [mailbox2] mboxDistinct(a.mailbox)
 //@   at call Pop assert [strict_priority] (self == a.mailbox.System ==> emptyFlag(a.mailbox.Urgent)) && (self == a.mailbox.Main ==> emptyFlag(a.mailbox.Urgent) && emptyFlag(a.mailbox.System)) && (self == a.mailbox.Log ==> emptyFlag(a.mailbox.Urgent) && emptyFlag(a.mailbox.System) && emptyFlag(a.mailbox.Main))
+//@   at call HandleCall assert [request_presented_with_its_own_ref] arg0 == message.From && arg1 == message.Ref && arg2 == message.Message
+//@   at call HandleCallName assert [request_presented_with_its_own_ref] arg1 == message.From && arg2 == message.Ref && arg3 == message.Message
+//@   at call HandleCallAlias assert [request_presented_with_its_own_ref] arg1 == message.From && arg2 == message.Ref && arg3 == message.Message
+//@   at call SendResponse assert [answer_goes_to_the_asker_under_the_request_ref] to == caller_message.From && ref == caller_message.Ref && message == caller_result
 
 //@ iface PoolBehavior.HandleCall
 //@   modifies emptyFlag
@@ -202,6 +207,7 @@ package act
 //@   props C03 C19
 //@   mode int
 //@   no_safety
+//@   may_panic
 //@   requires [mailbox] mboxDistinct(p.mailbox) && p.pool != nil
 //@   loop 1 invariant [mailbox1] mboxDistinct(p.mailbox) && p.pool != nil
 //@   loop 2 invariant [mailbox2] mboxDistinct(p.mailbox) && p.pool != nil
